@@ -19,7 +19,7 @@ LEVEL = "exploration"
 RULE = (
     "Hypothesis draws an indexed directory of 2-3 pages (sections, title/header tags and properties that notes "
     "inherit, multi-line notes, notes whose body mentions another note's ZID -- before and after that note, bare "
-    "and as [ZID]); then EVERY note of the directory is moved once (state restored in between) to a drawn "
+    "and as [ZID]); then EVERY note of the directory (quick tier: the first five) is moved once (state restored in between) to a drawn "
     "destination -- another page with notes/sections, a page that is only a header block (+/- blank line), a page "
     "ending inside a section, with 0/1/2 trailing blank lines or without final newline, a missing page matched by "
     "a template pattern, or the source page itself -- with marker none / x / ~.  Oracle on exit 0: source = old "
@@ -132,7 +132,7 @@ def check(case, rec: Rec) -> None:
         rows = dbdump.dump(base)["notes"]
         by_zid = {n["zid"]: n for n in rows}
         all_text = "\n".join((base / rel).read_text() for rel in files)
-        for mi, mv in enumerate(case["moves"]):
+        for mi, mv in enumerate(case["moves"][:case.get("max_moves", 10 ** 6)]):
             one = {"dir": case["dir"], "today": case["today"], "moves": [mv]}
             note = by_zid.get(mv["zid"])
             if note is None:
@@ -367,7 +367,8 @@ def sample_view(case):
 
 def parts(tier):
     quick = tier == "quick"
-    return [HypPart(name="move", check=check, strategy=_case,
+    move_case = (lambda: _case().map(lambda c: dict(c, max_moves=5))) if quick else _case
+    return [HypPart(name="move", check=check, strategy=move_case,
                     examples=6 if quick else 400, seconds=22 if quick else 600),
             HypPart(name="sequence", check=check_sequence, strategy=_seq_case,
                     examples=6 if quick else 400, seconds=20 if quick else 500)]
